@@ -28,6 +28,9 @@ pub enum Op {
     /// keep the fresh bytes as a prefix and add text
     Extend,
     Replace,
+    /// turn the first U+FFFD of the file (EF BF BD) into the malformed sequence F0 BF BD, which
+    /// a lossy decoder reads as U+FFFD again; a plain Flip when the file has none
+    LossyTwin,
 }
 
 #[derive(Debug, Clone, Serialize, Deserialize)]
@@ -80,6 +83,11 @@ fn gen_case(c: &mut Choices) -> Case {
         s.push('\n');
         project.put("big.txtpp.txt", s);
     }
+    let with_replacement_char = c.chance(1, 6);
+    if with_replacement_char {
+        // what a command printing non-UTF-8 bytes leaves in an output
+        project.put("rep.txt.txtpp", "x\u{fffd}y\n\u{fffd}\n".to_string());
+    }
     let build = RunOpts {
         mode: ModeS::Build,
         trailing_newline: !c.chance(1, 4),
@@ -97,7 +105,8 @@ fn gen_case(c: &mut Choices) -> Case {
         0 => Change::None,
         1 => Change::Tamper {
             which: c.raw(),
-            op: match c.below(8) {
+            op: match if with_replacement_char && c.chance(1, 2) { 8 } else { c.below(8) } {
+                8 => Op::LossyTwin,
                 0 => Op::Flip,
                 1 => Op::Insert,
                 2 => Op::Delete,
@@ -156,6 +165,17 @@ pub fn tamper(b: &[u8], op: &Op, pos: u16) -> Option<Vec<u8>> {
         Op::RemoveFile => return None,
         Op::Extend => v.extend_from_slice(b"extra text\n"),
         Op::Replace => v = b"not the same".to_vec(),
+        Op::LossyTwin => {
+            let hit = (0..len.saturating_sub(2)).find(|&i| v[i] == 0xEF && v[i + 1] == 0xBF && v[i + 2] == 0xBD && v.get(i + 3).map(|b| *b < 0x80 || *b >= 0xC0).unwrap_or(true));
+            match hit {
+                Some(i) => v[i] = 0xF0,
+                None if len == 0 => return Some(b"x".to_vec()),
+                None => {
+                    let i = at(len);
+                    v[i] ^= 0x01;
+                }
+            }
+        }
     }
     Some(v)
 }
